@@ -9,6 +9,7 @@ CONSTANTS
   MVals = {}
   OVals = {101}
   WithDelSpace = FALSE
+  WithChild = TRUE
   OpenFindings = {}
   MaxOps = 3
   Dump = TRUE
